@@ -17,6 +17,7 @@ import (
 	"sync"
 	"sync/atomic"
 	"time"
+	"verifharness/internal/netx"
 
 	"github.com/ipfs/go-cid"
 	"github.com/ipni/go-libipni/announce"
@@ -263,7 +264,7 @@ func replayReceiver(b *behaviour, watchdog time.Duration, withTopic bool) (key, 
 		}
 	} else if withTopic {
 		var err error
-		h, err = libp2p.New(libp2p.ListenAddrStrings("/ip4/127.0.0.1/tcp/0"))
+		h, err = netx.Retry(func() (host.Host, error) { return libp2p.New(libp2p.ListenAddrStrings("/ip4/127.0.0.1/tcp/0")) })
 		if err != nil {
 			return "infra", err.Error(), 0
 		}
@@ -505,7 +506,7 @@ func replayLRU(b *behaviour) (key, detail string) {
 // resendFails: a receiver that re-publishes direct announcements (WithResend) on a topic whose validator refuses them.  Delivery
 // does not depend on the re-publication: the announcement is delivered, once, and a second announcement of it is a duplicate.
 func resendFails(r *rep.Report) {
-	h, err := libp2p.New(libp2p.ListenAddrStrings("/ip4/127.0.0.1/tcp/0"))
+	h, err := netx.Retry(func() (host.Host, error) { return libp2p.New(libp2p.ListenAddrStrings("/ip4/127.0.0.1/tcp/0")) })
 	if err != nil {
 		return
 	}
